@@ -54,14 +54,6 @@ func createUpdate(prefix *gnmi.Path, path *gnmi.Path, configValues []*configapi.
 			if err != nil {
 				return nil, err
 			}
-			prefixPath := ""
-			if prefix != nil {
-				prefixPath = utils.StrPathElem(prefix.Elem)
-			}
-			if len(prefixPath) > len(cv.Path) {
-				//  If prefix is longer than the path, it can't possibly match
-				continue
-			}
 			pathCv, err := utils.ParseGNMIElements(strings.Split(strings.Trim(cv.Path, "/"), "/"))
 			if err != nil {
 				return nil, err
